@@ -160,3 +160,63 @@ Definition spec_postfix (cfg : config) (hr : repr) (h n : list N) : option N :=
 Definition spec_exact (cfg : config) (hr : repr) (h n : list N) : option N :=
   let l := lead_for hr h n in let t := trail_for hr h n in
   if (l + N.of_nat (length n) + t =? N.of_nat (length h)) && occurs cfg hr h n l then Some l else None.
+
+(* ---- C04: the documented two-matrix affine-gap recurrence, evaluated naively ---------------------- *)
+(* Full |needle| x |haystack| matrices with option cells (None = unreachable), no window, no row
+   offsets, no single-row compression.  M cell = (score, bonus carried by the consecutive run);
+   P cell = best score of an alignment of the row's prefix that ends in a gap before this column.
+   Literal constants: match 16, gap start 3, gap extension 1, consecutive minimum 4, boundary 8. *)
+Definition naive_p (m_prev : option (N * N)) (p_prev : option N) : option N :=
+  match m_prev, p_prev with
+  | None, None => None
+  | Some (m, _), None => Some (m - 3)
+  | None, Some p => Some (p - 1)
+  | Some (m, _), Some p => Some (if p - 1 <? m - 3 then m - 3 else p - 1)
+  end.
+Definition naive_m (m_diag : option (N * N)) (p_diag : option N) (b : N) : option (N * N) :=
+  match m_diag with
+  | None => match p_diag with None => None | Some p => Some (p + b + 16, b) end
+  | Some (m, cbm) =>
+    let cb0 := N.max cbm 4 in
+    let cb1 := if (8 <=? b) && (cb0 <? b) then b else cb0 in
+    let sm := m + N.max cb1 b in
+    match p_diag with
+    | None => Some (sm + 16, cb1)
+    | Some p => if p + b <? sm then Some (sm + 16, cb1) else Some (p + b + 16, b)
+    end
+  end.
+(* P row from an M row: P[j] depends on M[j-1], P[j-1] *)
+Fixpoint naive_p_row (ms : list (option (N * N))) (m_prev : option (N * N)) (p_prev : option N) : list (option N) :=
+  match ms with
+  | [] => []
+  | m :: ms' => let p := naive_p m_prev p_prev in p :: naive_p_row ms' m p
+  end.
+(* next M row: M'[j] from M[j-1], P[j-1] where the haystack character matches *)
+Fixpoint naive_next_row (x : N) (hs bs : list N) (ms : list (option (N * N))) (ps : list (option N))
+         (m_diag : option (N * N)) (p_diag : option N) : list (option (N * N)) :=
+  match hs, bs, ms, ps with
+  | c :: hs', b :: bs', m :: ms', p :: ps' =>
+    (if c =? x then naive_m m_diag p_diag b else None) :: naive_next_row x hs' bs' ms' ps' m p
+  | _, _, _, _ => []
+  end.
+Fixpoint naive_rows (n : list N) (hs bs : list N) (ms : list (option (N * N))) : list (option (N * N)) :=
+  match n with
+  | [] => ms
+  | x :: n' => naive_rows n' hs bs (naive_next_row x hs bs ms (naive_p_row ms None None) None None)
+  end.
+Definition naive_score (cfg : config) (hr : repr) (h n : list N) : option N :=
+  match n with
+  | [] => Some 0
+  | x :: n' =>
+    let hs := nh cfg hr h in
+    let bs := map (fun i => spec_bonus_at cfg hr h (N.of_nat i)) (seq 0 (length h)) in
+    let row0 := map (fun cb => if fst cb =? x then Some (16 + 2 * snd cb, snd cb) else None) (combine hs bs) in
+    fold_left (fun best c => match c, best with
+                             | Some (s, _), Some b => Some (N.max s b)
+                             | Some (s, _), None => Some s
+                             | None, _ => best
+                             end) (naive_rows n' hs bs row0) None
+  end.
+
+(* the documented limits of the matrix path (property text: 100 KiB cells, needle 2048, haystack 65535) *)
+Definition spec_matrix_refuses (hl nl : N) : bool := (102400 <? hl * nl) || (65535 <? hl) || (2048 <? nl).
